@@ -145,6 +145,7 @@ struct op_rec {
 };
 
 static size_t g_max_settle = 0;
+static int g_hangs = 0;     // scenarios of this run in which the client did not come to rest
 struct app {
     asio::io_context ioc;
     std::unique_ptr<client_t> c;
@@ -153,14 +154,17 @@ struct app {
     bool recv_loop = false; int next_auto_id = 1000;
     bool terminal_issued = false;   // the application ended the client: it does not re-arm async_receive
     long long handlers_run = 0;
+    long long settle_budget = 5000;   // cfg "budget": scenarios that deliver a 64 KiB packet in 7-byte reads need more
     bool aborted = false;
 
     app() { br.attach(); }
 
     // one settle() of a healthy client runs under 100 handlers in the ordinary scenario families and about 19 000 for
-    // a 64 KiB packet delivered 7 bytes at a time (g_max_settle, reported on stderr); a client that keeps itself busy
-    // without virtual time advancing is cut off here and reported as a "hang" event
-    size_t settle(long long budget = 300000) {
+    // a 64 KiB packet delivered 7 bytes at a time (g_max_settle, reported on stderr; those scenarios raise the budget
+    // in their cfg step); a client that keeps itself busy without virtual time advancing is cut off here and reported
+    // as a "hang" event
+    size_t settle(long long budget = -1) {
+        if (budget < 0) budget = settle_budget;
         size_t total = 0;
         struct upd { size_t& t; ~upd() { if (t > g_max_settle) g_max_settle = t; } } u { total };
         try {
@@ -169,7 +173,7 @@ struct app {
                 size_t k = ioc.poll_one();
                 if (!k) break;
                 total += k; ++handlers_run;
-                if ((long long) total > budget) { jev("hang").i("handlers", (long long) total); aborted = true; break; }
+                if ((long long) total > budget) { jev("hang").i("handlers", (long long) total); aborted = true; ++g_hangs; break; }
             }
         } catch (const std::exception& e) {
             jev("exception").str("what", e.what());
@@ -212,6 +216,7 @@ struct app {
     void configure(const json::object& s) {
         c = std::make_unique<client_t>(ioc);
         int hosts = (int) jint(s, "hosts", 1);
+        settle_budget = jint(s, "budget", 5000);
         std::string b;
         for (int i = 0; i < hosts; ++i) { if (i) b += ","; b += "b" + std::to_string(i) + ":" + std::to_string(1883 + i); }
         if (s.contains("brokers")) b = jstrk(s, "brokers");
@@ -680,7 +685,10 @@ int main(int argc, char** argv) {
         {
             app a;
             jev("reset").i("sc", my).str("name", jstrk(o, "name", "")).str("stream", STREAM_KIND);
-            for (auto& st : o.at("steps").as_array()) {
+            // after three scenarios in which the client kept itself busy forever the rest of the file is not executed
+            // (each such scenario costs tens of thousands of events; the verdict is there already)
+            if (g_hangs >= 3) jev("skipped");
+            else for (auto& st : o.at("steps").as_array()) {
                 if (a.aborted) break;
                 a.exec(st.as_object());
             }
